@@ -371,6 +371,8 @@ func streamNeg(c *Ctx) {
 			}
 		}
 		accepts = append(accepts, "", "identity", "br", "br,gzip", "br, zz ,rle", ",,gzip", "gzip;q=0.5", "GZIP", "identity,rle",
+			// a registered name that is a prefix (or an extension) of an offered one is another name
+			"rle-fast", "rle-fast,gzip", "zzz,rle", "gzip2", "gz,rle", "rl", "yy-block,zz-block",
 			"Snappy", "snappy", "Snappy,gzip", "gzip,Snappy", "X-Deflate", "x-deflate,X-Deflate", "gzip;q=0", "identity, gzip;q=0", "rle;q=0,gzip")
 		sents := []string{"", "identity", "gzip", "rle", "zz", "br", "GZIP", "x", "Snappy", "snappy", "X-Deflate"}
 		for _, acc := range accepts {
@@ -412,8 +414,9 @@ func streamNeg(c *Ctx) {
 		}
 	}
 	poolIsolationProbe(c)
-	failingCompressorProbe(c)
+	failingCompressorProbe(c, "neg-failed-compression-undecodable")
 	hugeLimitLosslessProbe(c)
+	forwardedEncodingProbe(c)
 }
 
 // hugeLimitLosslessProbe: every compressed message decompresses to the original bytes - also
@@ -497,6 +500,46 @@ func hugeLimitLosslessProbe(c *Ctx) {
 	}
 }
 
+// forwardedEncodingProbe: a gateway-style unary handler copies the headers of an upstream
+// response - Content-Encoding among them - into its own response, whose message then goes out
+// uncompressed (the client advertised nothing, or the message is below compress-min-bytes): the
+// response must not name an encoding its body does not have.
+func forwardedEncodingProbe(c *Ctx) {
+	for _, accept := range []string{"", "gzip"} {
+		desc := fmt.Sprintf("unary Connect handler whose response header carries a forwarded Content-Encoding: gzip, 10-byte message, compress-min-bytes 1024, client Accept-Encoding %q", accept)
+		c.Count("forwarded-encoding-probe")
+		got := safely(func() string {
+			h := connect.NewUnaryHandler("/s/m", func(ctx context.Context, r *connect.Request[[]byte]) (*connect.Response[[]byte], error) {
+				out := bytes.Repeat([]byte{9}, 10)
+				res := connect.NewResponse(&out)
+				res.Header().Set("Content-Encoding", "gzip") // as copied from an upstream response
+				res.Header().Set("X-Upstream", "u")
+				return res, nil
+			}, connect.WithCodec(rawCodec{"raw"}), connect.WithCompressMinBytes(1024))
+			req := httptest.NewRequest(http.MethodPost, "/s/m", bytes.NewReader([]byte{1}))
+			req.Header.Set("Content-Type", "application/raw")
+			if accept != "" {
+				req.Header.Set("Accept-Encoding", accept)
+			}
+			rec := httptest.NewRecorder()
+			h.ServeHTTP(rec, req)
+			enc := rec.Result().Header.Get("Content-Encoding")
+			body := rec.Body.Bytes()
+			plain := bytes.Equal(body, bytes.Repeat([]byte{9}, 10))
+			if plain && enc != "" && enc != "identity" {
+				return fmt.Sprintf("Content-Encoding: %s over the plain 10-byte message", enc)
+			}
+			if !plain && enc == "" {
+				return "unlabelled body that is not the message"
+			}
+			return "ok"
+		})
+		if got != "ok" {
+			c.Fail("cmin-header-body", desc, got, "the encoding header must describe the body")
+		}
+	}
+}
+
 // failingRLECompressor fails on Close for inputs of exactly 300 bytes (a quota, a broken
 // dictionary): nothing compressed comes out for those.
 type failingRLECompressor struct {
@@ -520,7 +563,7 @@ func (c *failingRLECompressor) Close() error {
 // part of the response that is labelled compressed must be what the named algorithm produces -
 // observed by a client of the same library, which must see the failure as a coded error (not a
 // response it cannot decode), and on the raw response.
-func failingCompressorProbe(c *Ctx) {
+func failingCompressorProbe(c *Ctx, key string) {
 	for _, proto := range []string{"connect", "grpc", "grpcweb"} {
 		for _, kind := range []string{"unary", "server"} {
 			desc := fmt.Sprintf("%s %s call, handler compressor for \"rle\" fails on the 300-byte response message, client accepts rle", proto, kind)
@@ -571,7 +614,7 @@ func failingCompressorProbe(c *Ctx) {
 			// (which code the failure is reported with is not this property's business; that the peer
 			// can decode the report is)
 			if got == "ok" || !strings.Contains(got, "compressor out of order") {
-				c.Fail("neg-failed-compression-undecodable", desc, got, "the handler's report of its compression failure must be decodable by the peer; a response whose encoding labels do not match its bytes is not")
+				c.Fail(key, desc, got, "the handler's report of its compression failure must be decodable by the peer; a response whose encoding labels do not match its bytes is not")
 			}
 		}
 	}
